@@ -246,14 +246,39 @@ def adoptMs (s : MsEncSt) (obs : String) : Option MsEncSt := do
   let ss ← (s.streams.zip parts).mapM (fun (e, p) => (parseIntList p).bind (adoptMsStream e))
   pure { s with streams := ss }
 
+/-- Settings part of a multistream encode call against `Ctl.msPrep`: with the observed per-stream bit-rates as the
+    rate oracle and some surround bandwidth, the model must leave exactly the observed user_bandwidth /
+    user_forced_mode / force_channels (and energy mask on success) in every stream; an early exit changes nothing. -/
+def msSettingsCheck (s : MsEncSt) (fsz bytes ret : Int) (m : MsEncSt) : Option String :=
+  match msEncodeEarly s fsz bytes with
+  | some e =>
+    if ret ≠ e.code then some s!"ms-early-ret {e.name}"
+    else if m.streams ≠ s.streams then some "ms-early-state" else none
+  | none =>
+    let bws : List Int := if s.surround then [BW_NB, BW_WB, BW_SWB, BW_FB] else [BW_FB]
+    let okFor (bw : Int) : Bool :=
+      ((List.range s.streams.length).all fun i =>
+        match s.streams[i]?, m.streams[i]? with
+        | some e, some e' =>
+          let e1 := msPrep s i e e'.userBitrate bw
+          e1.userBandwidth == e'.userBandwidth && e1.userForcedMode == e'.userForcedMode &&
+          e1.forceChannels == e'.forceChannels && e1.maxInternalSampleRate == (if s.surround then maxIntRate bw else e.maxInternalSampleRate) &&
+          (decide (ret < 0) || e'.energyMasking == (s.surround || e.energyMasking)) &&
+          e1.application == e'.application && e1.useVbr == e'.useVbr && e1.lfe == e'.lfe && e1.complexity == e'.complexity
+        | _, _ => false)
+    if bws.any okFor then none else some "ms-settings"
+
 def runProj (s : ProjEncSt) : List String → List String → String
   | [], acc => " ".intercalate acc.reverse
   | t :: ts, acc =>
     if t.toList.head? = some 'E' then
       match (tokBody t).splitOn ":" with
-      | [_, _, _, obs, _, _] =>
+      | [fszT, bytesT, retT, obs, _, _] =>
         match adoptMs s.ms obs with
         | some m =>
+          let settingsBad := match fszT.toInt?, bytesT.toInt?, retT.toInt? with
+            | some fsz, some bytes, some ret => msSettingsCheck s.ms fsz bytes ret m
+            | _, _, _ => some "bad-op"
           let s' := { s with ms := m }
           -- monitored part of `MsInv`: per-stream ranges, one application, no stream ahead of the first one
           -- (the multistream layer rewrites per-stream bitrate / bandwidth / forced mode / force_channels
@@ -268,7 +293,8 @@ def runProj (s : ProjEncSt) : List String → List String → String
           let headFirst := match m.streams with | e0 :: _ => e0.first | [] => true
           let firstBad := headFirst && m.streams.any (fun e => !e.first)
           let appBad := match m.streams with | e0 :: es => es.any (fun e => e.application ≠ e0.application) | [] => false
-          let tag := if rangeBad then "CONTRACT(ms-range)" else if firstBad then "CONTRACT(ms-first)"
+          let tag := if let some why := settingsBad then s!"CONTRACT({why})"
+                     else if rangeBad then "CONTRACT(ms-range)" else if firstBad then "CONTRACT(ms-first)"
                      else if appBad then "CONTRACT(ms-application)" else "enc"
           runProj s' ts (s!"{tag}/{msEncSnap s'.ms}" :: acc)
         | none => "bad-op"
